@@ -534,6 +534,49 @@ func (c *Ctx) c08Cap(pm *pairModel) {
 					}
 				})
 			}
+			if rmCall == nil {
+				// positional form: the body calls a helper that slices out messages[i] with the
+				// constant position 0
+				eng.BlockReaches(b.Succs[0], func(in ssa.Instruction) bool {
+					call, ok := in.(*ssa.Call)
+					if !ok {
+						return false
+					}
+					g := eng.StaticCallee(call.Common())
+					if g == nil || eng.FuncPkgPath(g) != eng.FuncPkgPath(fn) {
+						return false
+					}
+					for _, rs := range pm.removes {
+						if rs.store != "file" || rs.fn != g || rs.kind != "slice-out" {
+							continue
+						}
+						st, _ := rs.in.(*ssa.Store)
+						if st == nil {
+							continue
+						}
+						ap, _ := st.Val.(*ssa.Call)
+						if ap == nil || len(ap.Call.Args) == 0 {
+							continue
+						}
+						sl, _ := ap.Call.Args[0].(*ssa.Slice)
+						if sl == nil || sl.High == nil {
+							continue
+						}
+						prm, isP := eng.StripConv(sl.High).(*ssa.Parameter)
+						if !isP || prm.Parent() != g {
+							continue
+						}
+						rmCall = call
+						if pi := eng.ParamIndex(prm); pi >= 0 && pi < len(call.Call.Args) {
+							if k, isC := eng.ConstInt(call.Call.Args[pi]); isC && k == 0 {
+								oldest = true
+							}
+						}
+						return true
+					}
+					return false
+				}, func(in ssa.Instruction) bool { return in == ssa.Instruction(eng.IfOf(b)) })
+			}
 			switch {
 			case rmCall == nil:
 				r.Bad("C08/CAP/order", cons, site, "cap loop body does not remove a message")
